@@ -228,6 +228,30 @@ CHECKS = {
                 "order/state independent.",
         "design": "3 C06",
     },
+    "C12": {
+        "text": "Claimed part of C12, bounded symbolic verification: (a) the real BAMOnlineMerger merges <=4 records with symbolic sorted "
+                "(start,end) distributed over <=3 fake BAM iterators in EVERY partition chosen by the solver: the merged stream is sorted, a "
+                "permutation of the union and carries the right file index; (b) the real find_converted_db / compare_stored_gtf / convert_db "
+                "against a fake os/json layer with symbolic existence bits, current and recorded modification times and flags: a cached "
+                "database is used iff recorded for this GTF path with equal GTF mtime, DB mtime and complete_genedb flag; a conversion records "
+                "the current values; a touched GTF or a different flag is converted again.",
+        "note": "NOT claimed: that gffutils builds identical databases from .gtf/.gtf.gz/.db with or without inference (C extension + sqlite I/O, "
+                "not encodable), GeneInfo extraction from a gffutils database, gzipped reference handling.",
+        "design": "3 C12",
+    },
+    "C20": {
+        "engine": "z3-bmc",
+        "technique": "z3 bounded model checking over all interleavings of operation traces recorded from the real functions; counterexample schedules replayed with real threads and files",
+        "text": "Engine C: the shared-file operation trace of one run (exists / open-for-write=truncate / dump / open-for-read / load) is recorded by "
+                "executing the real set_configs_directory and convert_db against a recording file layer; z3 searches all interleavings of "
+                "2-3 (quick) / 2-4 (thorough) simultaneously starting runs, with the initialisation branch modelled, for a load that observes "
+                "a truncated file; schedules found are replayed with real threads on a real scratch HOME by stepping the real functions in that "
+                "order. The violation found this way is a recorded known finding; with it listed, the check additionally replays the "
+                "non-overlapping schedule for real and requires every run to succeed.",
+        "note": "Trusted: z3, the recorded traces (one solo run per scenario), atomicity of single file operations. read_mapper's index/BED/"
+                "alignment caches use the same pattern but are not recorded; more than 4 processes and OS-level scheduling inside a write are outside.",
+        "design": "3 C20",
+    },
 }
 
 NOT_BUILT = "check not built yet (build in progress, see DESIGN.md section 5); no claim is made"
